@@ -156,6 +156,8 @@ def from_ast(node, symf, eq_funcs=EQ_FUNCS):
         return parts[0] if len(parts) == 1 else And(*parts)
     if isinstance(node, ast.Call):
         fn = node.func.attr if isinstance(node.func, ast.Attribute) else getattr(node.func, "id", None)
+        if fn == "bool" and len(node.args) == 1 and not node.keywords:
+            return from_ast(node.args[0], symf, eq_funcs)  # bool(<predicate>) is the predicate
         if fn in eq_funcs and len(node.args) >= 2:
             return Cmp("==", symf(node.args[0]), symf(node.args[1]))
         if fn in LOOSE_EQ_FUNCS and len(node.args) >= 2:
